@@ -4,6 +4,7 @@ import (
 	"os"
 
 	"verif/mc/core"
+	_ "verif/mc/props/c07"
 	_ "verif/mc/props/c09"
 	_ "verif/mc/props/c15"
 	_ "verif/mc/props/c19"
